@@ -12,6 +12,10 @@ CLAIMED = {
    text="Kernel-checked theorems: BS (3 conventions), PS, WP, PR unitary over any commutative ring with conjugation and, instantiated at C=R×R, for every real angle; PERM unitary with u[p k,k]=1 for every size; the range wrap lands in range and moves by whole ranges, and whole ranges leave every matrix unchanged. The hand-written model is tied to /repo on every run by a correspondence stream (numeric and symbolic matrices, far out-of-range values, permutations, _check_value, bound parameters/expressions) evaluated by the extracted model.",
    note="Axioms: the three Coq.Reals axioms (sig_forall_dec, sig_not_dec, functional_extensionality_dep) for the real-angle and periodicity theorems; all other theorems closed.",
    tech="Coq proof (generic ring + Reals instance) + extracted-model differential correspondence"),
+ "C13": dict(cat="proof", ref="DESIGN.md §7 C13",
+   text="Kernel-checked theorems over any commutative ring with conjugation and all sizes: doubling a spatial matrix is a monoid morphism (products, identity, adjoint) and preserves unitarity; the 2m x 2m matrix of a circuit mixing spatial and polarising leaves (any nesting, offsets) is the ordered product of its leaves, spatial ones doubled at sub-modes [2 off, 2 off + 2k), and is unitary when the leaves are (WP/HWP/QWP, PR, PBS proved unitary) provided no sub-circuit is empty; the preparation matrix built from normalised Jones vectors (first vector and its complement, or two orthogonal vectors; orthonormal columns => orthonormal rows via the adjugate) is unitary; for EVERY output over the sub-modes the simulator's route (engine specification on U_pol.Prep and the spatial input) equals the specification (permanent with one column U_pol.(eh|2k>+ev|2k+1>) per photon, photon order irrelevant), with prod s'! = squared norm of the polarised input; merging sums the two sub-modes; the label table pushed through project_eh_ev gives H V D A L R = the standard Jones vectors, in any ring with i^2=-1, 2r^2=1 and at the complex numbers over the reals with r = 1/sqrt 2. The code as it is refutes two clauses (vm_compute witnesses, replayed on /repo): a circuit containing an empty sub-circuit has a non-unitary / wrongly sized polarised matrix, and the vacuum yields no preparation matrix; with the two one-line repairs both clauses are proved for every circuit and input (C13_polar_unitary_repaired, C13_impl_eq_spec_repaired; second model configuration 1310-1313, switch REPAIRED in harness/props/c13.py). The model is tied to /repo on every run over the exact field Q(i)(sqrt 2): compute_unitary(use_polarization=True), convert_polarized_state, SimulatorFactory(SLOS, Naive).probs / evolve and Processor.with_polarized_input on generated circuits and inputs (elliptical rational Jones vectors, labelled and elliptical orthogonal pairs, malformed inputs), all outputs, exact mass 1.",
+   note="Theorems closed under the global context except the two real-angle label theorems (three Coq.Reals axioms). Three open findings re-found on every run (known_findings.json): empty sub-circuit in polarised mode, two polarisations in one mode rejected by the unitarity assertion (float32 annotations; found by the correspondence stream, not expressible in the exact model), vacuum input. Distributions compared at 1e-6 because annotations are single precision.",
+   tech="Coq proof (morphism + circuit induction + column identity of the matrix product + permutation invariance of the permanent) + extracted-model differential correspondence over Q(i)(sqrt 2)"),
  "C01": dict(cat="proof", ref="DESIGN.md §7 C01",
    text="Kernel-checked theorems over any commutative ring, any nesting depth, offsets and mode count: the circuit matrix equals the ordered product of the leaves' matrices embedded at their absolute ranges (cmat_flatten), is unitary when the leaves are, merge = nest, barriers are neutral, add rejects exactly misfitting ranges. The model's construction semantics (add/merge/nest, //, @, barrier, copy) is tied to /repo by running random straight-line programs over named circuit variables on both sides and comparing every variable's matrix and component listing after every statement.",
    note="All theorems closed under the global context.",
